@@ -147,6 +147,10 @@ pub struct WireScenario {
     /// readers of the fault-free / benign configuration
     pub readers: Vec<ReaderSpec>,
     pub cases: Vec<Case>,
+    /// consumer step after decoding: one retain filter per frame (applied to
+    /// frames that are well-formed registries)
+    #[serde(default)]
+    pub keeps: Vec<reggen::Keep>,
 }
 
 // ---------------------------------------------------------------------------
@@ -517,7 +521,25 @@ pub fn generate(rng: &mut Rng) -> Result<WireScenario, String> {
             }
         }
     }
-    Ok(WireScenario { frames, sentinel, writer, readers, cases })
+    let keeps = (0..n_frames)
+        .map(|_| match rng.below(8) {
+            0 => reggen::Keep::All,
+            1 => reggen::Keep::Nothing,
+            2 | 3 => reggen::Keep::One(rng.next_u64() as u32),
+            4 => reggen::Keep::Last,
+            _ => {
+                let density = *rng.pick(&[20u32, 100, 300, 600]);
+                let mut bits = vec![0u64; 8];
+                for id in 0..512 {
+                    if rng.permille(density) {
+                        bits[id / 64] |= 1 << (id % 64);
+                    }
+                }
+                reggen::Keep::Bits(bits)
+            }
+        })
+        .collect();
+    Ok(WireScenario { frames, sentinel, writer, readers, cases, keeps })
 }
 
 // ---------------------------------------------------------------------------
@@ -815,6 +837,8 @@ pub struct WireResult {
     /// hashes of frames that went through the fault-free configuration
     pub frames_checked: Vec<u64>,
     pub triples: BTreeSet<(String, String, String)>,
+    /// hashes of (frame, filter) pairs whose retain kept some but not all entries
+    pub retains_nontrivial: Vec<u64>,
 }
 
 enum Decoded {
@@ -1042,6 +1066,26 @@ fn execute_inner(scn: &WireScenario, mask: Mask, res: &mut WireResult) -> Check 
                                 format!("frame {} via {}: re-encoding differs", k, reader.kind())
                             })?;
                         }
+                        // skipping a value must move the stream exactly as decoding it does
+                        if matches!(reader, ReaderSpec::Slice) {
+                            let mut input = &stream[pos..];
+                            let before_len = input.len();
+                            let skipped = core::catch(|| <PortableRegistry as Decode>::skip(&mut input));
+                            match skipped {
+                                Ok(Ok(())) if before_len - input.len() == consumed => {}
+                                other => {
+                                    fail(mask, "C07", "skip_consumes_exactly", || {
+                                        format!(
+                                            "frame {}: skip() ended {:?} after {} bytes, decode consumed {}",
+                                            k,
+                                            other.map(|r| r.map_err(|e| e.to_string())),
+                                            before_len - input.len(),
+                                            consumed
+                                        )
+                                    })?;
+                                }
+                            }
+                        }
                         pos += consumed;
                     }
                     Decoded::Err(e) => {
@@ -1068,6 +1112,43 @@ fn execute_inner(scn: &WireScenario, mask: Mask, res: &mut WireResult) -> Check 
                 _ => {}
             }
         }
+    }
+
+    // ---- consumer step: retain on what was decoded (C10, C01) -------------------
+    if mask.has("C10") || mask.has("C01") {
+        for (k, keep) in scn.keeps.iter().enumerate() {
+            let Some(before) = scn.frames.get(k) else { break };
+            if !before.well_formed() {
+                continue;
+            }
+            let Ok(mut reg) = PortableRegistry::decode(&mut &encoded[k][..]) else { continue };
+            let len = before.len();
+            let accepted: Vec<u32> = (0..len as u32).filter(|&id| keep.accepts(id, len)).collect();
+            match core::catch(|| reg.retain(|id| keep.accepts(id, len))) {
+                Ok(map) => {
+                    let after = PReg::from_lib(&reg);
+                    if mask.has("C10") {
+                        crate::oracle::check_retain(mask, before, &accepted, &after, &map)?;
+                    }
+                    crate::oracle::check_well_formed(mask, "retain_after_decode", &reg, &after)?;
+                    probe("checks.retain_after_decode");
+                    if !map.is_empty() && map.len() < len {
+                        res.retains_nontrivial.push(hash_of(&(res.scenario_hash, k as u64)));
+                    }
+                    if before.types.iter().any(|(_, t)| t.kind() == "bitsequence") {
+                        probe("reach.retain_on_registry_with_bit_sequence");
+                    }
+                }
+                Err(msg) => {
+                    fail(mask, "C10", &core::panic_clause(&msg), || {
+                        format!("retain on decoded frame {} panicked: {}", k, msg)
+                    })?;
+                }
+            }
+        }
+    }
+    if !(mask.has("C14") || mask.has("C07")) {
+        return Ok(());
     }
 
     // ---- fault cases (C14), survivors feed C07 ------------------------------
@@ -1404,6 +1485,7 @@ pub fn sweep_scenario(frame: &PReg) -> Result<Option<WireScenario>, String> {
         writer: IoScript::plain(),
         readers: vec![ReaderSpec::Slice, ReaderSpec::Io(IoScript::plain())],
         cases,
+        keeps: vec![],
     }))
 }
 
